@@ -889,6 +889,9 @@ func (c *ChannelWriter) alterIndex(ctx context.Context, msgBase *commonpb.MsgBas
 	alterIndexMsg.DbName, alterIndexMsg.CollectionName = c.mapDBAndCollectionName(
 		alterIndexMsg.GetDbName(), alterIndexMsg.GetCollectionName())
 	err := c.dataHandler.AlterIndex(ctx, &api.AlterIndexParam{
+		ReplicateParam: api.ReplicateParam{
+			Database: alterIndexMsg.DbName,
+		},
 		AlterIndexRequest: alterIndexMsg.AlterIndexRequest,
 	})
 	if err != nil {
